@@ -340,6 +340,7 @@ func (c *Cache[K, V]) SetWithTTL(key K, value V, cost int64, ttl time.Duration) 
 	default:
 		expiration = time.Now().Add(ttl)
 	}
+	verifPoint(vpSetAfterClock)
 
 	keyHash, conflictHash := c.keyToHash(key)
 	i := &Item[V]{
@@ -411,17 +412,20 @@ func (c *Cache[K, V]) GetTTL(key K) (time.Duration, bool) {
 		// not found
 		return 0, false
 	}
+	verifPoint(vpTtlAfterGet)
 
 	expiration := c.storedItems.Expiration(keyHash)
 	if expiration.IsZero() {
 		// found but no expiration
 		return 0, true
 	}
+	verifPoint(vpTtlAfterExp)
 
 	if time.Now().After(expiration) {
 		// found but expired
 		return 0, false
 	}
+	verifPoint(vpTtlAfterNow)
 
 	return time.Until(expiration), true
 }
